@@ -17,6 +17,8 @@ Shapes_1 == {<<Sh(1, 1)>>}
 Shapes_small == {<<Sh(1, 1)>>, <<Sh(1, 2)>>, <<Sh(2, 1)>>, <<Sh(1, 1), Sh(1, 1)>>}
 Shapes_par == {<<Sh(2, 2)>>, <<Sh(1, 2), Sh(2, 1)>>}
 Shapes_2dev == {<<Sh(1, 1), Sh(1, 1)>>}
+Shapes_wide == {<<Sh(1, 3)>>, <<Sh(3, 1)>>, <<Sh(1, 1), Sh(1, 1), Sh(1, 1)>>}
+Shapes_bp == {<<Sh(1, 3)>>, <<Sh(3, 1)>>}
 Shapes_live == {<<Sh(1, 2)>>, <<Sh(1, 1), Sh(1, 1)>>}
 Shapes_222 == {<<Sh(2, 2), Sh(2, 2)>>}
 Shapes_scen == Shapes_small \cup Shapes_par \cup Shapes_222 \cup {<<Sh(3, 1)>>, <<Sh(1, 3)>>, <<Sh(2, 1), Sh(1, 1), Sh(1, 2)>>}
